@@ -552,8 +552,10 @@ class ConfigReplayer:
 
     def run(self, text):
         self.toml.write_text(text)
+        self.ncalls = getattr(self, "ncalls", 0) + 1
         try:
-            return "ok", self.io.parse_config(self.toml), ""
+            # the path as a pathlib.Path or as a plain string, alternating
+            return "ok", self.io.parse_config(self.toml if self.ncalls % 2 else str(self.toml)), ""
         except self.exc.ConfigError as ex:
             return "ConfigError", None, str(getattr(ex, "message", ex))[:200]
         except Exception as ex:  # noqa: BLE001
